@@ -607,7 +607,12 @@ AutoShutdown ==
 Stall ==
   /\ stopped = "no" /\ trig = {}
   /\ \A i \in DOMAIN pool : ~Active(pool[i]) /\ ~(Ready(i))
-  /\ \E i \in DOMAIN pool : Final(pool[i]) \/ (pool[i].st = "waiting" /\ ~pool[i].rh /\ Pt(i) <= StopPt)
+  \* (something is stuck: an incomplete finished task, or a waiting task at or below the stop point - runahead-
+  \*  limited or not - with unsatisfied prerequisites)
+  /\ \E i \in DOMAIN pool :
+        IF Final(pool[i]) THEN TRUE
+        ELSE /\ pool[i].st = "waiting" /\ Pt(i) <= StopPt
+             /\ (IF pool[i].rh THEN ~PrereqsOK(W, Name(i), Pt(i), pool[i].sat) ELSE TRUE)
   \* (is_stalled brings the limit up to date itself; a runahead-limited task within it that could run once
   \*  released means "not stalled" - one whose prerequisites are not satisfied does not)
   /\ ~ENABLED ComputeRunahead
